@@ -54,22 +54,23 @@ mod bset__par;
 mod opt_lat__par;
 mod lat_two_keys__ser;
 mod count_paths__ser;
-mod count_paths__src2;
-mod neg_basic__run;
-mod neg_basic__runpar;
-mod agg_minmaxsum__ser;
-mod agg_lattice__pari;
+mod count_paths__src0;
+mod neg_basic__par;
+mod neg_basic__src1;
+mod neg_basic__ren;
+mod agg_depth__par;
+mod agg_lattice__topar;
 mod neg_rec_after__exppar;
-mod disj__par;
-mod disj__redecl;
-mod disj__exp;
-mod pat_args__par;
-mod rep_expr__exppar;
-mod neg_in_disj__pari;
-mod mac_basic__gen;
-mod mac_basic__exp;
-mod mac_nested__par;
-mod mac_disj__exppar;
+mod agg_empty__topar;
+mod disj__gen;
+mod disj__perm1;
+mod disj_nested__pari;
+mod rep_expr__ser;
+mod multi_head_disj__exp;
+mod mac_basic__par;
+mod mac_basic__src1;
+mod mac_capture__ser;
+mod mac_nested__exp;
 
 fn lookup(name: &str) -> fn() -> Box<dyn Driven> {
    match name {
@@ -119,22 +120,23 @@ fn lookup(name: &str) -> fn() -> Box<dyn Driven> {
       "opt_lat__par" => opt_lat__par::make,
       "lat_two_keys__ser" => lat_two_keys__ser::make,
       "count_paths__ser" => count_paths__ser::make,
-      "count_paths__src2" => count_paths__src2::make,
-      "neg_basic__run" => neg_basic__run::make,
-      "neg_basic__runpar" => neg_basic__runpar::make,
-      "agg_minmaxsum__ser" => agg_minmaxsum__ser::make,
-      "agg_lattice__pari" => agg_lattice__pari::make,
+      "count_paths__src0" => count_paths__src0::make,
+      "neg_basic__par" => neg_basic__par::make,
+      "neg_basic__src1" => neg_basic__src1::make,
+      "neg_basic__ren" => neg_basic__ren::make,
+      "agg_depth__par" => agg_depth__par::make,
+      "agg_lattice__topar" => agg_lattice__topar::make,
       "neg_rec_after__exppar" => neg_rec_after__exppar::make,
-      "disj__par" => disj__par::make,
-      "disj__redecl" => disj__redecl::make,
-      "disj__exp" => disj__exp::make,
-      "pat_args__par" => pat_args__par::make,
-      "rep_expr__exppar" => rep_expr__exppar::make,
-      "neg_in_disj__pari" => neg_in_disj__pari::make,
-      "mac_basic__gen" => mac_basic__gen::make,
-      "mac_basic__exp" => mac_basic__exp::make,
-      "mac_nested__par" => mac_nested__par::make,
-      "mac_disj__exppar" => mac_disj__exppar::make,
+      "agg_empty__topar" => agg_empty__topar::make,
+      "disj__gen" => disj__gen::make,
+      "disj__perm1" => disj__perm1::make,
+      "disj_nested__pari" => disj_nested__pari::make,
+      "rep_expr__ser" => rep_expr__ser::make,
+      "multi_head_disj__exp" => multi_head_disj__exp::make,
+      "mac_basic__par" => mac_basic__par::make,
+      "mac_basic__src1" => mac_basic__src1::make,
+      "mac_capture__ser" => mac_capture__ser::make,
+      "mac_nested__exp" => mac_nested__exp::make,
       _ => panic!("no such program variant in this shard: {}", name),
    }
 }
